@@ -136,11 +136,14 @@ def coq_segs(segs):
     return "[" + "; ".join(f"{k} [{'; '.join(ins(e) for e in l)}]" for k, l in segs) + "]"
 
 
-COQ_HDR = ("From Coq Require Import List Bool Arith String.\nFrom V.C05 Require Import ModelOrderEdges ModelRun ModelEffects GenEffects.\n"
+COQ_HDR = ("From Coq Require Import List Bool Arith NArith String.\nFrom V.C05 Require Import ModelOrderEdges ModelRun ModelEffects GenEffects.\n"
            "Import ListNotations.\n"
+           "(* results are printed as binary numbers: printing unary nat literals is slow *)\n"
+           "Definition en (l : list (nat*nat)) := map (fun ab => (N.of_nat (fst ab), N.of_nat (snd ab))) l.\n"
            "Definition enc (r : option report) := match r with\n"
-           " | None => (false, (@nil (nat*nat), @nil (nat * (list (nat*nat) * list (nat*nat))), (false, false, false)))\n"
-           " | Some x => (true, (rp_edges x, rp_regions x, (rp_wf x, rp_disc x, rp_local x))) end.\n")
+           " | None => (false, (@nil (N*N), @nil (N * (list (N*N) * list (N*N))), (false, false, false)))\n"
+           " | Some x => (true, (en (rp_edges x), map (fun r => (N.of_nat (fst r), (en (fst (snd r)), en (snd (snd r))))) (rp_regions x),\n"
+           "                     (rp_wf x, rp_disc x, rp_local x))) end.\n")
 
 
 def run_model(ctx, seg_list, tag, per=12):
